@@ -48,6 +48,7 @@ ASSUMPTIONS = [
 ]
 MINIMUMS = {"monitor:children-done-at-exit": 3000, "pending_at_body_end": 1500, "aborted_groups": 1000, "grandchildren": 100, "monitor:forever-cancelled": 300, "monitor:detached-outside": 3}
 JOBS = {"quick": 4, "thorough": 16}
+OPTIMIZED_SHARDS = {"quick": 2, "thorough": 8}  # the same cases once more under `python -O`
 LEVEL_TEXT = (
     "Every program with up to 2 spawned tasks (all script pairs x spawn sites x body outcomes) is run under every release order of its gates (DFS, capped), plus sampled programs "
     "with 3-4 tasks, grandchildren and nested async scopes; at each block exit the done() flags of all tasks spawned into it are sampled, and a pending exit at loop quiescence is a hang."
